@@ -128,6 +128,34 @@ def attr_text(f):
     return "#[%s(%s)]" % (head, ", ".join(parts))
 
 
+def default_literal(form, val, s):
+    """the spellings of an integer literal a user may write for `default = ...`"""
+    def under(txt, k):
+        out = ""
+        for i, ch in enumerate(reversed(txt)):
+            if i and i % k == 0:
+                out = "_" + out
+            out = ch + out
+        return out
+    if form == "dec":
+        return "%d" % val
+    if form == "dec_":
+        return under("%d" % val, 3)
+    if form == "bin_":
+        return "0b" + under("{:b}".format(val), 4)
+    if form == "oct":
+        return "0o{:o}".format(val)
+    if form == "hexsuf":
+        return "0x%xu%d" % (val, s)
+    if form == "hexsuf_":
+        return "0x%s_u%d" % (under("%X" % val, 4), s)
+    if form == "decsuf":
+        return "%du%d" % (val, s)
+    if form == "binsuf":
+        return "0b%s_u%d" % (under("{:b}".format(val), 4), s)
+    return "0x%x" % val
+
+
 def decl_source(d, doc=False, derive_debug_enums=True, vis="pub "):
     """Only the user-written declaration (enums, nested bitfields, the bitfield)."""
     out = []
@@ -177,7 +205,7 @@ def decl_source(d, doc=False, derive_debug_enums=True, vis="pub "):
             out.append("%sconst DEFVAL: u%d = 0x%x;" % (vis, d["s"], val))
             args.append("default%s DEFVAL" % sep)
         else:
-            args.append("default%s 0x%x" % (sep, val))
+            args.append("default%s %s" % (sep, default_literal(d.get("defform", "lit"), val, d["s"])))
     if d.get("debug", False):
         args.append("debug")
     if doc:
